@@ -273,6 +273,47 @@ func runC15(rc *RC) {
 		if openDone && openErr == nil {
 			rc.Failf("C15.c1", "open-succeeds-without-acceptance", "the peer has no listener (it answered the open request with an error) but Open returned a connection")
 		}
+		if openDone && openErr != nil {
+			// the refused session does not exist: packets naming it are refused by the side that tried to open it
+			var cond string
+			var ierr error
+			it := rc.Spawn("injector-refused", func() {
+				ictx, c2 := context.WithTimeout(ctx, 20*time.Second)
+				defer c2()
+				pay := xmlstream.Wrap(xmlstream.Token(xml.CharData("QUJD")), xml.StartElement{Name: xml.Name{Space: ibb.NS, Local: "data"}, Attr: []xml.Attr{{Name: xml.Name{Local: "sid"}, Value: sid}, {Name: xml.Name{Local: "seq"}, Value: "0"}}})
+				if ch.Chance("workload", 1, 3) {
+					pay = xmlstream.Wrap(nil, xml.StartElement{Name: xml.Name{Space: ibb.NS, Local: "close"}, Attr: []xml.Attr{{Name: xml.Name{Local: "sid"}, Value: sid}}})
+				}
+				r, err := p.B.SendIQ(ictx, stanza.IQ{Type: stanza.SetIQ, ID: "inj3"}.Wrap(pay))
+				if err != nil {
+					ierr = err
+					return
+				}
+				defer r.Close()
+				tok, _ := r.Token()
+				st, _ := tok.(xml.StartElement)
+				if (Elem{Start: st}).Attr("type") != "error" {
+					cond = "result"
+					return
+				}
+				for {
+					tok, err := r.Token()
+					if err != nil {
+						return
+					}
+					if s2, ok := tok.(xml.StartElement); ok && s2.Name.Space == "urn:ietf:params:xml:ns:xmpp-stanzas" {
+						cond = s2.Name.Local
+						return
+					}
+				}
+			})
+			rc.S.Run(func() bool { return it.Done() }, 200000, time.Minute)
+			rc.Fire("inject-refused-sid")
+			rc.Evals["C15.c4"]++
+			if !it.Done() || ierr != nil || cond != "item-not-found" {
+				rc.Failf("C15.c4", "bad-packet-not-refused:refused-sid", "packet for a session whose open request was refused: want stanza error item-not-found, got %q (err %v, returned %v)", cond, ierr, it.Done())
+			}
+		}
 		finishC15(rc, p, &phase)
 		return
 	}
